@@ -56,6 +56,8 @@ type Case struct {
 	Subs     []string     `json:"subs"`
 	Pre      []gen.Step   `json:"pre"`
 	Holder   gen.Step     `json:"holder"`
+	// WithStart: the schema has the predefined Start state, active when the trigger fires, with StartEnd/StartExit handlers bound
+	WithStart bool `json:"with_start,omitempty"`
 }
 
 func (c Case) key() string { b, _ := json.Marshal(c); return string(b) }
@@ -122,6 +124,9 @@ func runCase(c Case, st *ev.Stats) error {
 
 	sc := gen.Schema{States: append(append([]gen.StateDef{}, c.Schema.States...), gen.StateDef{Name: "Y"}, gen.StateDef{Name: "Z"})}
 	helper := c.Trigger == "helper"
+	if c.WithStart && !helper {
+		sc.States = append(sc.States, gen.StateDef{Name: am.StateStart})
+	}
 	var run *rec.Run
 	var err error
 	if helper {
@@ -159,7 +164,6 @@ func runCase(c Case, st *ev.Stats) error {
 		run.Cancel()
 	}()
 	m.EvalTimeout = 20 * time.Second
-	hasHandlers := m.VerifHandlerLoopRunning()
 
 	for _, s := range c.Pre {
 		rec.Apply(m, s)
@@ -167,10 +171,18 @@ func runCase(c Case, st *ev.Stats) error {
 	// the table's vetoes must not cancel the setup mutation
 	run.Runner.Hook = func(cl *rec.Call, e *am.Event) (bool, bool) { return true, true }
 	m.Add1("Y", nil)
+	if c.WithStart {
+		var startCalls atomic.Int32
+		_, _ = m.HandlersBindMaps(map[string]am.HandlerNegotiation{am.StateStart + am.SuffixExit: func(*am.Event) bool { startCalls.Add(1); return true }},
+			map[string]am.HandlerFinal{am.StateStart + am.SuffixEnd: func(*am.Event) { startCalls.Add(1) }}, am.BindOpts{Id: "start"})
+		m.Add1(am.StateStart, nil)
+	}
 	run.Runner.Hook = nil
 	if !m.Is1("Y") {
 		return fmt.Errorf("setup: could not activate Y")
 	}
+
+	hasHandlers := m.VerifHandlerLoopRunning()
 
 	// OnDispose handlers
 	var dispCalls [3]atomic.Int32
@@ -286,6 +298,12 @@ func runCase(c Case, st *ev.Stats) error {
 		safe(m.Dispose)
 		inFlight = true
 	case "gate":
+		// subscriptions the held transition itself is about to satisfy
+		hs := am.S(c.Holder.States)
+		subs = append(subs, sub{"when(holder states)", m.When(hs, nil)})
+		subs = append(subs, sub{"whenticks(holder state)", m.WhenTicks(hs[0], 1, nil)})
+		subs = append(subs, sub{"query(any tick)", m.WhenQuery(func(am.Clock) bool { return true }, nil)})
+		subs = append(subs, sub{"whenqueue(next)", m.WhenQueue(am.Result(m.QueueTick() + 1))})
 		g := sched.Arm(m, c.Gate, 1)
 		done := make(chan struct{})
 		go func() { defer close(done); rec.Apply(m, c.Holder) }()
@@ -298,6 +316,7 @@ func runCase(c Case, st *ev.Stats) error {
 			safe(m.Dispose)
 			time.Sleep(time.Duration(c.At%3) * time.Millisecond)
 		case <-done:
+			g.Release() // the holder never reached the gate; Dispose's own transitions must not be held
 			safe(m.Dispose)
 		case <-time.After(10 * time.Second):
 		}
@@ -566,12 +585,15 @@ func runCase(c Case, st *ev.Stats) error {
 
 var allSubs = []string{"when", "when+ctx", "whennot", "whennot+ctx", "whentime", "whentime+ctx", "whenticks", "whennext", "query", "query+ctx",
 	"args", "args+ctx", "queue", "statectx", "whenerr"}
-var triggers = []string{"idle", "force", "double", "gate", "gate", "handler", "handler", "eval", "during", "during", "parent", "helper"}
+var triggers = []string{"idle", "force", "double", "gate", "gate", "handler", "handler", "eval", "during", "during", "parent", "parent", "helper"}
 
 func genCase(t *rapid.T) Case {
 	sc := gen.GenSchema(t, gen.SchemaOpts{MaxStates: 5})
 	c := Case{Schema: sc}
-	c.Trigger = rapid.SampledFrom(triggers).Draw(t, "trigger")
+	// one uniform draw over (trigger x Start state) so that every combination is visited
+	combo := rapid.IntRange(0, 2*len(triggers)-1).Draw(t, "triggerCombo")
+	c.Trigger = triggers[combo%len(triggers)]
+	c.WithStart = combo >= len(triggers)
 	withTable := rapid.IntRange(0, 3).Draw(t, "withTable") != 0 || c.Trigger == "handler"
 	if withTable {
 		c.Table = gen.GenTable(t, sc, gen.TableOpts{Veto: true, Nested: true, MaxBindings: 2})
@@ -607,7 +629,7 @@ func genCase(t *rapid.T) Case {
 
 func TestDispose(t *testing.T) {
 	st := ev.G()
-	st.SetRapid(60, 3000, 1)
+	st.SetRapid(80, 3000, 1)
 	rapid.Check(t, func(t *rapid.T) {
 		c := genCase(t)
 		st.Journal(map[string]any{"kind": "c13", "case": c})
